@@ -234,10 +234,10 @@ class Gen(object):
             if k < 0.25:
                 w, t = 1, Type("flag")
             elif k < 0.55:
-                w = min(remaining, r.choice([1, 2, 3, 4, 5, 7, 8, 12, 16, remaining]))
+                w = min(remaining, r.choice([1, 2, 3, 4, 5, 7, 8, 12, 16, remaining, 24, 31, 32, 33, 40, 48, 63]))
                 t = Type("uint")
             elif k < 0.7:
-                w = min(remaining, r.choice([1, 2, 4, 6, 8, 9, 16, remaining]))
+                w = min(remaining, r.choice([1, 2, 4, 6, 8, 9, 16, remaining, 32, 33, 40, 57]))
                 t = Type("int")
             elif k < 0.8:
                 w = min(remaining, r.choice([4, 8, 3, 12, 7]))
